@@ -250,3 +250,15 @@ Theorem C13_class_defs : forall s : bytes,
   Gem.SpecFacts.go_rejects s = negb (Gem.Version.pattern (trim_space s)).
 Proof. intros s. repeat split; reflexivity. Qed.
 Print Assumptions C13_class_defs.
+
+(* ====== ties to the source: BEGIN (written by bin/mkties) ====== *)
+(* The Go functions named here are translated into Gallina from /repo's source on every run
+   (tools/gen/code.go -> Gen/Code/<Eco>.v); Tie/<Eco>.v, Tie/<Eco>Range.v prove each translation equal to the
+   model the theorems above speak about.  If the code changes so that a tie no longer holds,
+   this file no longer checks. *)
+From Verif.Tie Require Gem.
+Definition C13_tie_gem_compareInt := Verif.Tie.Gem.tie_gem_compareInt.
+Print Assumptions C13_tie_gem_compareInt.
+Definition C13_tie_gem_compareSegments := Verif.Tie.Gem.tie_gem_compareSegments.
+Print Assumptions C13_tie_gem_compareSegments.
+(* ====== ties to the source: END ====== *)
